@@ -272,8 +272,9 @@ func executeOneStep(
 		// the service was asked for an object that another service just told us about. An answer without
 		// that object (and without an error of its own) is a failure of the join and has to be reported.
 		// The one exception is an id that came in through a field of type Node (the gateway's own node
-		// field): nobody knows which services own such an id, so a service may rightfully not know it.
-		if node, ok := queryResult["node"]; (!ok || node == nil) && queryErr == nil && step.ParentType != "Node" {
+		// field): nobody knows which services own such an id, so a service may rightfully answer null for
+		// it. An answer that leaves the field out altogether is malformed in either case.
+		if node, ok := queryResult["node"]; queryErr == nil && (!ok || (node == nil && step.ParentType != "Node")) {
 			return nil, nil, fmt.Errorf("service did not return the %s with id %v", step.ParentType, variables["id"])
 		}
 
